@@ -64,7 +64,7 @@ def replay_harness(ctx, casefile, toks):
 CLAUSES = {
     1: "served certificate not valid for >= skew before and after the instant",
     2: "served certificate valid for more than 14 days",
-    3: "AddrComponent lacks the hash of the served certificate",
+    3: "the advertised address (AddrComponent / listener multiaddr) lacks the hash of the served certificate",
     4: "SerializedCertHashes lacks the hash of the served certificate",
     5: "an address read earlier lacks the certificate served in its current/following period",
     6: "a SerializedCertHashes list read earlier lacks the certificate served in its current/following period",
@@ -107,7 +107,7 @@ def _chain(t, i):
 
 def describe(t):
     try:
-        if t[0] in (1, 4):
+        if t[0] in (1, 4, 5):
             evs, i = [], 4
             while i < len(t) and len(evs) < 10:
                 op = t[i]
@@ -123,7 +123,7 @@ def describe(t):
                     evs.append({"generateCert": t[i + 1:i + 4]}); i += 4
                 else:
                     break
-            return {"kind": "timeline" if t[0] == 1 else "timeline-before-1970+offset", "pubkey_bytes": t[1:3], "t0_ns": t[3], "events": evs}
+            return {"kind": {1: "certManager timeline", 4: "certManager timeline before 1970+offset", 5: "listener timeline (served = leaf presented in a real handshake)"}[t[0]], "pubkey_bytes": t[1:3], "t0_ns": t[3], "events": evs}
         if t[0] == 2:
             ch, i = _chain(t, 1)
             hs, i = _plist(t, i)
@@ -167,7 +167,7 @@ def nontrivial(line):
     # a timeline is non-trivial when the served certificate changed at least once;
     # a verifier case when the outcome is not a plain hash mismatch; every dial is
     t = [int(x) for x in line.split()]
-    if t[0] in (1, 4):
+    if t[0] in (1, 4, 5):
         return _rollovers(t) >= 1
     return t[-1] != 2 if t[0] == 2 else True
 
@@ -183,6 +183,8 @@ def key(tag, toks, d):
         if cl == 13:
             return "C18:%s:accepts-RSA:rsa_key=%d:sig=%s" % (site, d[2], SIG.get(d[3], d[3]))
         return "C18:%s:clause%d" % (site, cl)
+    if toks[0] == 5 and len(d) >= 3:
+        return "C18:listener:clause%d:at-sample-%d:key-bytes=%d,%d:t0=%d" % (d[2], d[1], toks[1], toks[2], toks[3])
     if toks[0] in (1, 4) and len(d) >= 3:
         return "C18:certManager:clause%d:at-sample-%d:key-bytes=%d,%d:t0=%d" % (d[2], d[1], toks[1], toks[2], toks[3])
     return "C18:%s:%s" % (toks[0], d)
@@ -192,7 +194,7 @@ def what(tag, toks, d):
     if toks[0] in (2, 3) and len(d) >= 2:
         return "%s: %s (diag %s)" % ("verifyRawCerts" if toks[0] == 2 else "Dial", CLAUSES.get(d[1], "?"), d)
     if len(d) >= 3:
-        return "certManager timeline: %s at sample %d (diag %s)" % (CLAUSES.get(d[2], "?"), d[1], d)
+        return "%s timeline: %s at sample %d (diag %s)" % ("listener (real handshakes)" if toks[0] == 5 else "certManager", CLAUSES.get(d[2], "?"), d[1], d)
     return "diag %s" % d
 
 
@@ -226,6 +228,9 @@ if __name__ == "__main__":
              "judged by the property monitor (monitor_case). verifier: the full table flavour(ECDSA, RSA PKCS#1, RSA-PSS, RSA key under ECDSA "
              "issuer, ECDSA key under RSA issuer, Ed25519, garbage) x validity window (boundaries to the second, sub-second now) x hash-list "
              "variant (present, absent, other code with same digest, SHA-512, truncated, empty) x chain length 0-3 under virtual time.Now(). "
+             "listener timelines: a real transport.Listen on a mock clock that stays open across 0-4+ rollovers (also restarts and second nodes); at every "
+             "sample a real QUIC/TLS handshake is made against it and the presented leaf (NotBefore/NotAfter/hash) together with the certhashes of "
+             "listener.Multiaddr() is what the same monitor judges. "
              "dials: real Dial against a real listener on loopback after one exact rollover, addresses built from last/current/next/bogus/"
              "re-coded/two-periods-old hashes, servers that drop, re-code or garble their early-data hashes or present other certificates. "
              "A case is non-trivial when a rollover was observed (timelines) or the outcome is not a plain hash mismatch.",
